@@ -534,7 +534,7 @@ pub fn judge(src: &[u8], desc: impl Fn() -> Value, w: &mut WorkerCtx, wellformed
 						{
 							conform = false;
 							w.result.violation(
-								&format!("lexical-error-on-legal-lexemes:E{}", front.lex_error_codes[0]),
+								&format!("lexical-error-on-legal-lexemes:E{}", front.lex_error_codes.first().copied().unwrap_or(0)),
 								size,
 								&desc,
 								|| format!("all lexemes are legal according to the reference lexer, but lexical errors {:?} are reported", front.lex_error_codes),
@@ -563,11 +563,11 @@ pub fn judge(src: &[u8], desc: impl Fn() -> Value, w: &mut WorkerCtx, wellformed
 			}
 			else if !front.lex_error_codes.is_empty()
 			{
-				format!("rejected:lexical:E{}", front.lex_error_codes[0])
+				format!("rejected:lexical:E{}", front.lex_error_codes.first().copied().unwrap_or(0))
 			}
 			else
 			{
-				format!("rejected:syntax:E{}", front.parse_error_codes[0])
+				format!("rejected:syntax:E{}", front.parse_error_codes.first().copied().unwrap_or(0))
 			};
 			w.result.outcome(&if conform { key } else { format!("{key}:NONCONFORMING") });
 			if front.accepted() && front.num_declarations > 0
